@@ -203,7 +203,8 @@ def norm_path(p):
         c = p[i]
         if c == "<":
             prev = p[i - 1] if i > 0 else ""
-            is_qualifier = i == 0 or prev in "(<, &[" or p[max(0, i - 3):i] == "as "
+            is_qualifier = (i == 0 or prev in "(<, &[" or p[max(0, i - 3):i] == "as "
+                            or p.startswith("<impl ", i))
             if is_qualifier:
                 out.append(c)
                 i += 1
@@ -218,7 +219,15 @@ def norm_path(p):
             i += 1
     s = "".join(out)
     s = re.sub(r"'[a-z_]+\s?", "", s)
-    return s
+    return s.replace(LIB_PREFIX, "")
+
+
+LIB_PREFIX = "embedded_cli::"
+
+
+def raw_key(p):
+    """Key for body lookup across crates: the library's own paths are printed without the crate name."""
+    return p.replace(LIB_PREFIX, "") if p else p
 
 
 class Fn:
